@@ -31,7 +31,7 @@ demo = os.path.join(src, "run_demo.sh")
 d1 = sh(f"bash {demo} {WT}", cwd=src, timeout=900)
 meta["ran"].append("run_demo.sh <worktree> (with patch, then without)")
 meta["demo_fails_with_patch"] = d1.returncode != 0
-c = sh(f"cd /verif && IGRIS_REPO={WT} ./check {pid} --tier quick 2>/dev/null", timeout=3000)
+c = sh(f"cd /verif && IGRIS_REPO={WT} ./check {pid} --tier quick --evidence {WT}/.evidence.json 2>/dev/null", timeout=3000)
 meta["ran"].append(f"IGRIS_REPO=<worktree> ./check {pid} --tier quick (with patch)")
 meta["check_exit_with_patch"] = c.returncode
 meta["check_violations"] = [l.split("replay=")[1].split("/")[-1].replace(".json", "") for l in c.stdout.splitlines() if l.startswith("VIOLATION")]
